@@ -48,8 +48,10 @@ def gen_electric_case(rng, n=None, rich=True, max_swb=3):
     for d, ci in zip(plant["comps"], inp["comps"]):
         if pg.kind_of(d["cls"]) == "Source":
             ci["lsm"] = [Fraction(0)] * inp["n"]
-        if pg.kind_of(d["cls"]) == "Consumer":
+        if pg.kind_of(d["cls"]) == "Consumer" and (d["cls"] != "load" or rng.random() < 0.5):
             ci["set"] = "from_output"      # the result integrates the delivered power of drives: set loads the public way
+        elif pg.kind_of(d["cls"]) == "Consumer":
+            ci["set"] = "input"            # a hotel load given on its input side only (what the front end does)
     inp["dt"] = [Fraction(rng.randint(1, 40) * 15) for _ in range(inp["n"])]
     return {"plant": plant, "inp": inp}
 
